@@ -476,6 +476,8 @@ def meaning_of_object(o):
 
 def b_const(s):
     k = s["k"]
+    if k == "raw":           # a plain Python value: the classes convert it with make_constant
+        return s["v"]
     if k == "str":
         return P.StringConstant(s["v"])
     if k == "int":
